@@ -213,6 +213,26 @@ def validate(name, lines):
     return viol
 
 
+def mc(tier):
+    spec_h = tree_hash([os.path.join(SPEC, f) for f in ("Cli.tla", "ConfigRules.tla")])
+    mt = 3 if tier == "thorough" else 2
+    cp = os.path.join(RESULTS, "mc_cli%d_%s.json" % (mt, spec_h))
+    if os.path.exists(cp):
+        return json.load(open(cp))
+    invs = ["RefusedTouchesNothing", "OutsideUntouched", "CleanNeverSkips", "CleanAlone", "ExactlyOnce"]
+    cfg = write_cfg("Cli_%d" % mt, {"MaxTargets": mt}, invs, [], "Spec", False)
+    t0 = time.time()
+    rc, o = tlc("Cli.tla", cfg, workers=min(8, NCPU), timeout=3000, metaname="mc_cli")
+    st = tlc_stats(o)
+    st.update({"name": "cli%d" % mt, "invariants": invs, "wall_s": round(time.time() - t0, 1)})
+    if st["ok"]:
+        json.dump(st, open(cp, "w"))
+    else:
+        st["tail"] = "\n".join(l for l in o.splitlines() if not TLC_NOISE.match(l))[-2000:]
+    log("TLC Cli.tla: %s distinct=%d %.0fs" % ("ok" if st["ok"] else "FAILED", st["distinct"], st["wall_s"]))
+    return st
+
+
 def suite(tier, seed):
     key = "cli_%s_%s_%s_%d" % (repo_hash(), verif_hash(), tier, seed)
     cp = os.path.join(RESULTS, key + ".json")
@@ -227,7 +247,10 @@ def suite(tier, seed):
         hs = [gen_history(rng, k) for k in range(120 if tier != "thorough" else 1500)]
         with cf.ThreadPoolExecutor(NCPU) as ex:
             all_lines = list(ex.map(run_history, hs))
-        res = {"violations": [], "tool_errors": [], "histories": len(hs), "invocations": sum(len(x) - 1 for x in all_lines), "samples": []}
+        res = {"violations": [], "tool_errors": [], "histories": len(hs), "invocations": sum(len(x) - 1 for x in all_lines), "samples": [],
+               "mc": mc(tier)}
+        if not res["mc"]["ok"]:
+            res["tool_errors"].append({"job": "tlc:Cli.tla", "what": "model checking failed", "tail": res["mc"].get("tail", "")})
         k = NCPU
         for s in range(k):
             part = [x for x in all_lines[s::k]]
